@@ -37,6 +37,9 @@ TRUSTED = ["harness/c17_util.py: recording wrappers around exploit_perm_sym / "
            "(c17_util.reference_names) used to bind printed tensor names to "
            "tensor values in the independent execution"]
 ASSUMPTIONS = [
+    "the ERI / Fock names are recognised by the part of the long name before "
+    "the first '_' (tensors whose own name starts with 'V_' / 'f_' are outside "
+    "the generated vocabulary; the Coq check conv_ok flags them)",
     "the contraction scheme and the exploit_perm_sym dictionary are inputs of "
     "the model; that a well-formed scheme computes the term is C16, that the "
     "dictionary reproduces the expression is C10 (both are nevertheless "
